@@ -187,3 +187,47 @@ func genDecoderOpts(t *rapid.T, withCast bool) Opts {
 	}
 	return o
 }
+
+// applyUnrelatedOptions switches on package options that are not documented to influence the path/key queries,
+// the update functions or NewMap (decoder, encoder and cast switches, prefixes); the checks of those properties run
+// under them with unchanged expectations. sel == 0 leaves everything at its default.
+func applyUnrelatedOptions(sel uint16) {
+	if sel == 0 {
+		return
+	}
+	bit := func(i uint) bool { return sel&(1<<i) != 0 }
+	mxj.CoerceKeysToLower(bit(0))
+	mxj.CoerceKeysToSnakeCase(bit(1))
+	mxj.DecodeSimpleValuesAsMap(bit(2))
+	mxj.DisableTrimWhiteSpace(bit(3))
+	mxj.IncludeTagSeqNum(bit(4))
+	if bit(5) {
+		mxj.XMLEscapeCharsDecoder(true)
+	} else if bit(6) {
+		mxj.XMLEscapeChars(true)
+	}
+	mxj.CastValuesToInt(bit(7))
+	mxj.CastValuesToFloat(!bit(8))
+	mxj.CastValuesToBool(!bit(9))
+	mxj.CastNanInf(bit(10))
+	if bit(11) {
+		mxj.XmlGoEmptyElemSyntax()
+	}
+	mxj.HandleXMPPStreamTag(bit(12))
+	if bit(13) {
+		mxj.SetAttrPrefix("attr_")
+	}
+	if bit(14) {
+		mxj.SetGlobalKeyMapPrefix("$")
+	}
+	if bit(15) {
+		mxj.SetCheckTagToSkipFunc(func(string) bool { return true })
+	}
+}
+
+func genUnrelated(t *rapid.T) uint16 {
+	if rapid.IntRange(0, 2).Draw(t, "unrelatedopts") > 0 {
+		return 0
+	}
+	return rapid.Uint16().Draw(t, "optbits")
+}
